@@ -74,6 +74,19 @@ def replay(ctx, binary, jobs, workers):
             label, len(behs), d.get("replays_ok", 0), d.get("lines", 0), d.get("shape_drift", 0)))
 
 
+def require_acts(behs, acts, what):
+    """Vacuity guard: every action of the spec occurs in the behaviours that are replayed."""
+    seen = set()
+    for b in behs:
+        for s in b:
+            seen.add(s["act"])
+            if "via" in s:
+                seen.add("via:" + s["via"])
+    missing = sorted(set(acts) - seen)
+    if missing:
+        raise vlib.Inconclusive("VACUOUS", "%s: no behaviour takes %s" % (what, missing))
+
+
 def thin_sim(traces):
     """TLC's simulator evaluates the emitting invariant on every successor of the last state,
     so each run yields one trace per disjunct of SimNext sharing all but the last step. Keep
@@ -111,11 +124,11 @@ def run(ctx):
         nsim, tw = 6, 4
     else:
         runs = [("edges/all-reads 4 keys x 2 values", "OrderedMap_te.cfg", 4, "edge"),
-                ("edges/mutations 8 keys", "OrderedMap_tm.cfg", 8, "edge"),
+                ("edges/mutations 7 keys", "OrderedMap_tm.cfg", 7, "edge"),
                 ("exhaustive 12 keys", "OrderedMap_t.cfg", None, "check"),
                 ("exhaustive 7 keys x 2 values", "OrderedMap_t2.cfg", None, "check"),
                 ("simulation 40 keys x 70 steps", "OrderedMap_sim.cfg", 40, "sim")]
-        nsim, tw = 250, 6
+        nsim, tw = 150, 6
 
     def tlc(run_):
         label, cfg, nk, mode = run_
@@ -133,6 +146,8 @@ def run(ctx):
         elif mode == "sim":
             jobs.append((label, nk, thin_sim(r.traces)))
         ctx.log("TLC %s: %d distinct states, %d transitions, %d behaviours, %.1fs" % (label, r.distinct, r.generated, len(r.traces), r.wall))
+    require_acts([b for _, _, bs in jobs for b in bs], ["Set", "Remove", "Get", "Has", "Size", "GetByIndex", "Iterate", "ReverseIterate",
+                                                        "IterateByOffset", "ReverseIterateByOffset"], "C50")
     replay(ctx, binary, jobs, 4 if quick else 8)
     ctx.cov["exhaustive"] = True
     ctx.assumptions += [
